@@ -20,6 +20,7 @@ type AggItem struct {
 
 type C03Case struct {
 	Doc       map[string]any    `json:"doc"`
+	Env       Envelope          `json:"env,omitempty"`      // irrelevant options / table representation / repeated execution
 	Limit     int               `json:"limit,omitempty"`    // LIMIT n (n >= 1) on the aggregate query; 0 = none
 	GoTypes   map[string]string `json:"go_types,omitempty"` // numeric columns handed over as native Go values of that type
 	Shape     string            `json:"shape"`              // group | whole | groupagg
@@ -43,12 +44,21 @@ func init() {
 			"executions must agree, conservation law sum(COUNT(*)) = |rows passing WHERE|, groups pairwise distinct. Non-trivial: >=2 groups " +
 			"with one of size >=2, or whole-table with WHERE rejecting >=1 row, or two calls of one aggregate function.",
 		Assumptions: []string{
+			"a third of the cases run inside an envelope that must not change the result: PostgresEscapingDialect / IdiomaticArrays on (the query uses neither double quotes nor brackets), Wrapped() with FROM root.<table>, tables handed over as []map[string]any, and a second execution on the same input object",
 			"scalar grouping keys only; AVG and COUNT(col) only on non-nullable columns (as the statement says)",
 			"aggregate arguments are plain columns",
 		},
-		Gen:      genC03,
-		New:      func() any { return &C03Case{} },
-		Check:    func(c any) Result { return checkC03(c.(*C03Case)) },
+		Gen: func(t *rapid.T) any {
+			c := genC03(t).(*C03Case)
+			c.Env = genEnvelope(t, "env")
+			return c
+		},
+		New: func() any { return &C03Case{} },
+		Check: func(c any) Result {
+			r := checkC03(c.(*C03Case))
+			r.Labels = append(r.Labels, c.(*C03Case).Env.Labels()...)
+			return r
+		},
 		Quick:    2500,
 		Thorough: 200000,
 	})
@@ -457,7 +467,7 @@ func checkC03(c *C03Case) Result {
 
 	var first []any
 	for i := 0; i < 3; i++ {
-		out := Run(typedDoc(c.Doc, map[string]map[string]string{"t": c.GoTypes}), c.SQL, Opts{})
+		out := c.Env.Exec(typedDoc(c.Doc, map[string]map[string]string{"t": c.GoTypes}), c.SQL)
 		res.Execs++
 		if !out.OK() {
 			res.Violation = fmt.Sprintf("%s\n  expected rows %s\n  got %s", c.SQL, val.JSON(want), out.Describe())
@@ -483,8 +493,8 @@ func checkC03(c *C03Case) Result {
 		gsql := csql + " GROUP BY " + strings.Join(c.GroupCols, ", ")
 		// grouped query needs a non-aggregate item unless shape groupagg is supported; use keys
 		gsql = strings.Replace(gsql, "SELECT COUNT(*) AS n", "SELECT "+c.GroupCols[0]+", COUNT(*) AS n", 1)
-		tot := Run(typedDoc(c.Doc, map[string]map[string]string{"t": c.GoTypes}), csql, Opts{})
-		grp := Run(typedDoc(c.Doc, map[string]map[string]string{"t": c.GoTypes}), gsql, Opts{})
+		tot := c.Env.Exec(typedDoc(c.Doc, map[string]map[string]string{"t": c.GoTypes}), csql)
+		grp := c.Env.Exec(typedDoc(c.Doc, map[string]map[string]string{"t": c.GoTypes}), gsql)
 		res.Execs += 2
 		if !tot.OK() || !grp.OK() || len(tot.Rows) != 1 {
 			res.Violation = fmt.Sprintf("conservation queries failed: %s -> %s ; %s -> %s", csql, tot.Describe(), gsql, grp.Describe())
